@@ -197,6 +197,7 @@ fn determinism(ctx: &mut Ctx, first: &Obs, font: &str, mutation: &str, bytes: &[
     ctx.count("determinism_checks", 1);
     let k0 = first.key();
     let sigs0 = first.panic_counts.clone();
+    let sites0 = first.panic_sites.clone();
     let mut compare = |ctx: &mut Ctx, which: &str, other: Result<Obs, vf_core::PanicInfo>| {
         let o = match other {
             Ok(o) => o,
@@ -209,13 +210,15 @@ fn determinism(ctx: &mut Ctx, first: &Obs, font: &str, mutation: &str, bytes: &[
             return;
         }
         let sigs = o.panic_counts.clone();
-        if sigs != sigs0 {
+        if sigs != sigs0 || o.panic_sites != sites0 {
             // the difference is a panic that depends on the call / thread /
             // placement: the panic itself is the refuting event (one finding
             // per panic site instead of one per input)
             ctx.count("placement_or_call_dependent_panics", 1);
             for (what, p) in &o.panics {
-                if sigs0.get(&p.signature()) != sigs.get(&p.signature()) {
+                let sg = p.signature();
+                let moved = o.panic_sites.iter().filter(|(_, s)| *s == sg).ne(sites0.iter().filter(|(_, s)| *s == sg));
+                if sigs0.get(&sg) != sigs.get(&sg) || moved {
                     ctx.judge_panic(p, &format!("{} [only on {}]", what, which), case.clone(), Some(bytes));
                 }
             }
@@ -319,7 +322,7 @@ pub fn workload(ctx: &mut Ctx, _args: &Args) {
         ctx.inconclusive("no corpus fonts found");
         return;
     }
-    let mut r = Runner { item: 0, det_every: 8, executed: 0 };
+    let mut r = Runner { item: 0, det_every: 10, executed: 0 };
     let seed = ctx.seed;
 
     corpus_pass(ctx, &mut r, &fonts);
@@ -422,7 +425,7 @@ fn table_truncations(ctx: &mut Ctx, r: &mut Runner, fonts: &[CorpusFont]) {
 /// every table and of the file header / directory (sampled to fit the budget).
 fn boundary_sweeps(ctx: &mut Ctx, r: &mut Runner, fonts: &[CorpusFont]) {
     // keep 1 in N enumerated edits: N shrinks as the budget scale grows
-    let keep_small = ((ctx.tier.pick(24.0, 3.0) / ctx.scale.max(0.01)).ceil() as usize).max(1);
+    let keep_small = ((ctx.tier.pick(30.0, 4.0) / ctx.scale.max(0.01)).ceil() as usize).max(1);
     let keep_big = ((ctx.tier.pick(160.0, 16.0) / ctx.scale.max(0.01)).ceil() as usize).max(1);
     for f in fonts {
         let id = f.id();
@@ -520,7 +523,7 @@ fn directory_edits(ctx: &mut Ctx, r: &mut Runner, fonts: &[CorpusFont]) {
 
 /// G5: random structure-aware mutants (1..4 edits each), in place.
 fn random_mutants(ctx: &mut Ctx, r: &mut Runner, fonts: &[CorpusFont], seed: u64) {
-    let per_small = ctx.budget(1400, 14_000);
+    let per_small = ctx.budget(1200, 12_000);
     let per_big = ctx.budget(500, 5_000);
     for (fi, f) in fonts.iter().enumerate() {
         let id = f.id();
